@@ -261,10 +261,20 @@ class _Awaitable:
         return self._coro.__await__()
 
 
+@types.coroutine
+def _generator_based(coro):
+    """A generator-based coroutine (types.coroutine): awaitable, yet an object
+    of the plain ``generator`` type -- like the lazily produced lists."""
+    return (yield from coro.__await__())
+
+
 def _as_awaitable(ctx, coro, path=None):
-    kind = ctx.kernel.stream.below(4, "aw-kind")
+    kind = ctx.kernel.stream.below(5, "aw-kind")
     if kind == 0:
         return coro
+    if kind == 4:
+        ctx.count("awaitable_generator_based")
+        return _generator_based(coro)
     if path is not None and any(
             k == "generr" and len(path) > len(z)
             and tuple(path[:len(z)]) == tuple(z)
